@@ -120,9 +120,22 @@ def run(ctx):
         add('quat_null_space', f'side={o!r}', (lambda o=o: utils.quat_null_space(At, side=o)), D(lt, opt=o), exp)
     for o, exp in (('x', 'accept'), ('y', 'reject'), ('z', 'reject'), ('i', 'reject')):
         add('quaternion_to_complex_adjoint', f'axis={o}', (lambda o=o: utils.quaternion_to_complex_adjoint(A3, axis=o)), D(l3, opt=o, herm=True), exp)
-    for cls in ('quat_tall', 'quat_wide', 'real_sq3', 'quat_3d', 'quat_1x1'):
+    for cls in classes:
+        if cls == 'sparse_sq3': continue
         v, l, h = arr(cls)
-        add('quaternion_to_complex_adjoint', cls, (lambda v=v: utils.quaternion_to_complex_adjoint(v)), D(l, opt='x', herm=h), 'accept' if cls == 'quat_1x1' else 'reject')
+        sqc = cls in ('quat_herm3', 'quat_sq3', 'quat_1x1', 'quat_1x1n', 'quat_2x2h')
+        add('quaternion_to_complex_adjoint', cls, (lambda v=v: utils.quaternion_to_complex_adjoint(v)), D(l, opt='x', herm=h), 'accept' if sqc else 'reject')
+        def callp(v=v):
+            with contextlib.redirect_stdout(io.StringIO()): return utils.power_iteration_nonhermitian(v, max_iterations=3)
+        add('power_iteration_nonhermitian', 'argument ' + cls, callp, None, 'accept' if sqc else ('reject' if cls.startswith('quat_') else 'either'))
+    # columns and rows of every small length (an n x 1 block broadcasts where an m x n block does not)
+    for k in (2, 3, 4, 5):
+        for shp in ((k, 1), (1, k)):
+            Vq = Qm(*shp)
+            add('quaternion_to_complex_adjoint', f'{shp[0]}x{shp[1]}', (lambda Vq=Vq: utils.quaternion_to_complex_adjoint(Vq)), D(f'(mkarr true DQuat 2 {shp[0]} {shp[1]} 0)', opt='x'), 'reject')
+            def callq(Vq=Vq):
+                with contextlib.redirect_stdout(io.StringIO()): return utils.power_iteration_nonhermitian(Vq, max_iterations=3)
+            add('power_iteration_nonhermitian', f'argument {shp[0]}x{shp[1]}', callq, None, 'reject')
     # ---- shape-coupled pairs ------------------------------------------------------------------
     R8 = rs.rand(8, 12)
     for (m, n), exp in (((2, 3), 'accept'), ((3, 2), 'reject'), ((2, 2), 'reject'), ((1, 3), 'reject')):
